@@ -263,6 +263,7 @@ func decideCase(run *sim.Run, id int) {
 	lastAccepted := map[string]int64{} // signal -> block time of the last accepted submission
 	lastInterval := map[string]int64{} // signal -> interval in force at that time
 	lastBlockTick := int64(0)
+	intervalMoved := map[string]bool{} // signal -> its interval changed (or it left / joined the list) since its last accepted submission
 	for tick := int64(0); tick < nTicks; tick++ {
 		T++
 		// ---- block production
@@ -312,11 +313,24 @@ func decideCase(run *sim.Run, id int) {
 				return
 			}
 			feedsAfter := feedSet(w)
+			var movedNow []string // applied after this block's acceptances: the list changes in the end blocker, after the txs
 			if fmt.Sprint(feedsBefore) != fmt.Sprint(feedsAfter) {
 				run.Count("A:feed-list-changed", 1)
 				for k := range feedsBefore {
 					if _, still := feedsAfter[k]; !still {
 						run.Count("A:feed-removed-from-list", 1)
+					}
+				}
+				// a gap between two accepted submissions is only judged if the signal stayed in the list with one and the
+				// same interval over the whole gap (the interval may change and change back between two submissions)
+				for k, fb := range feedsBefore {
+					if fa, still := feedsAfter[k]; !still || fa.Interval != fb.Interval {
+						movedNow = append(movedNow, k)
+					}
+				}
+				for k := range feedsAfter {
+					if _, was := feedsBefore[k]; !was {
+						movedNow = append(movedNow, k)
 					}
 				}
 				for k, fb := range feedsBefore {
@@ -336,7 +350,7 @@ func decideCase(run *sim.Run, id int) {
 						if prev, ok := lastAccepted[sp.SignalID]; ok {
 							gap := w.Time.Unix() - prev
 							feed, ok := feedsBefore[sp.SignalID]
-							if ok && feed.Interval != lastInterval[sp.SignalID] {
+							if ok && (feed.Interval != lastInterval[sp.SignalID] || intervalMoved[sp.SignalID]) {
 								run.Count("A:interval-changed-between-submissions(gap not judged)", 1)
 							} else if ok && gap > feed.Interval {
 								violate("resubmission-after-interval", fmt.Sprintf("signal %s: %d s between accepted submissions, interval %d", sp.SignalID, gap, feed.Interval))
@@ -344,6 +358,7 @@ func decideCase(run *sim.Run, id int) {
 							}
 						}
 						lastAccepted[sp.SignalID] = w.Time.Unix()
+						delete(intervalMoved, sp.SignalID)
 						lastInterval[sp.SignalID] = feedsBefore[sp.SignalID].Interval
 					}
 				} else {
@@ -364,6 +379,9 @@ func decideCase(run *sim.Run, id int) {
 				for _, sp := range f.sub.SignalPrices { // the submitter releases the ids once the tx outcome is known
 					pending.Delete(sp.SignalID)
 				}
+			}
+			for _, k := range movedNow {
+				intervalMoved[k] = true
 			}
 			for _, ev := range resp.Events {
 				if ev.Type == "deactivate" && sim.Attr(ev, "validator") == me.Val.String() {
